@@ -85,10 +85,12 @@ def gen_cases(ctx):
             for enc in encs:
                 cases.append(dict(base, enc=enc, junk=ctx.rng.choice(JUNK)))
     for name in UNUSED_Y:
-        for _ in range(ctx.scale(2, 12)):
+        for _ in range(ctx.scale(1, 8)):
             k += 1
             base = gen_case(ctx, name, k)
-            for j in ctx.rng.sample(JUNK[1:], 2):
+            # every shape-breaking kind of junk on every detector (a detector that starts validating the
+            # unused arguments rejects exactly these), plus the scalar / string / NaN kinds
+            for j in JUNK[1:]:
                 cases.append(dict(base, junk=j))
     return cases
 
